@@ -42,7 +42,7 @@ def make_history(seed, i):
     fs = {}
     for k in range(rng.randrange(4, 10)):
         kind = rng.choice(["modified", "modified", "notmodified", "syntax", "cancelled", "mapped-notmodified", "mapped-modified", "repeat", "mapped-external", "ext-same-url", "ext-same-url", "two-refs",
-                           "bare-call", "bare-call", "member-call", "member-call"])
+                           "bare-call", "bare-call", "member-call", "member-call", "many-literals"])
         file = rng.choice(["dir/a.js", "dir/b.js", "c.js", "/abs/d.js"])
         if kind == "repeat" and calls:
             calls.append(dict(rng.choice(calls))); continue
@@ -54,6 +54,12 @@ def make_history(seed, i):
             nm = rng.choice([m["src"] for m in cfg["csiMethods"] if not m.get("operator")] or ["trim"])
             code = ("function bc%d(a) { return %s(a); }\n" % (k, nm) if kind == "bare-call" else
                     "function mc%d(a, b) { return %s; }\n" % (k, rng.choice(["a.%s(b)", "'lit'.%s(b)", "String.prototype.%s.call(a, b)", "a?.%s(b)"]) % nm))
+        elif kind == "many-literals":
+            # one literal at many places, many literals at one place each: the report is a set, whatever order or capacity the collector has
+            code = "".join("log%d('literal_literal', 'other_literal_%d');\n" % (j, j % 7) for j in range(rng.choice([12, 40, 130]))) + "function ml%d(a, b) { return a + 'literal_literal'; }\n" % k
+            calls.append({"code": code, "file": file})
+            calls.append({"code": code, "file": file})
+            continue
         elif kind == "notmodified":
             code = "const k%d = 'literal_number_%d'; let t = [1,2,3].map(x => x * 2);\n" % (k, k)
         elif kind == "syntax":
